@@ -96,6 +96,18 @@ CHECKS = {
               "a stratified sample re-run with `// @ignore CODE` appended (C07 text oracle + model); text-mode exit status vs printed diagnostics."),
         note="IMPL messages are checked for shape/analyzer/URL/suppressibility on the implementation only until the @implements model lands. Lines already ending in a // comment are skipped for the suppression step. Exit status: multichecker's (library behaviour, observed).",
         technique="Coq proof (code lemmas per checker, message shape, own-code marker) + per-diagnostic and full-text correspondence through the real binary"),
+    "C10": dict(
+        text=("Theorems (Coq, every package tree, facts set and configuration): Go's partial operations that the analyzers perform are explicit outcomes of the model and are never taken - "
+              "token.File.LineStart in the @ignore reader is only asked for the physical line of a position at or after the file's first line start (input condition x_lines_ok, evaluated on "
+              "every serialised package), so the per-package analysis always returns a normal result; the suppression look-up never indexes outside the marker list; the excerpt renderer never "
+              "slices out of range for any content, line, column (0 and negative included), code and message; termination is structural (fuelled regex loops). PARTIAL: panics inside go/types, "
+              "x/tools or the runtime and panic sites the model does not mirror are reachable only by the runs: outcome correspondence (ok/crash/timeout/exit status/analyzer error) of "
+              "multichecker -json and text under two configurations and of go vet -vettool on guard-targeted worlds (aliases and blank type names, grouped/generic/local declarations, unnamed "
+              "receivers, universe types at every site, initialisers first in the file, dot imports, every form of //line directive, empty and comment-only files, 70 KB lines, CRLF, @ignore at "
+              "odd places) and on real corpora (yaml.v3, go-spew, go-difflib, testify, the repository's source) with annotations and @ignore comments injected on random declarations and lines; "
+              "the model is run on the same inputs and must predict a normal result."),
+        note="Partial by nature: a theorem about the model cannot exhibit a Go runtime panic outside the mirrored sites; the runs sample inputs. Wall-clock bound 900 s per run. Diagnostic-level model/implementation differences on these inputs are counted in the evidence, not reported (generics, //line files are outside the C01-C05 fragments).",
+        technique="Coq proof (modelled partial operations never fail; structural termination) + outcome correspondence over guard-targeted programs and annotation-injected corpora, three drivers"),
     "C15": dict(
         text=("Obligations (Coq, by computation on the seven regex syntax trees regenerated from the source with Go's own regexp/syntax): all classes within ASCII, nothing untranslated. "
               "The parsers (regex + split/trim/upper post-processing) and the reader's attachment rules are the executable model run against the real readers: exhaustive token sequences per "
